@@ -178,6 +178,16 @@ def register(M):
         if not args:
             return 0
         v = args[0]
+        base = args[1] if len(args) > 1 else kw.get('base')
+        if set(kw) - {'base'}:
+            raise AnalysisError('int() keyword not modelled', node)
+        if base is not None:
+            if not isinstance(v, (str, bytes)) or not isinstance(base, int):
+                raise AbsRaise(ExcVal('TypeError', ("int() can't convert non-string with explicit base",)), node)
+            try:
+                return int(v, base)
+            except ValueError:
+                raise AbsRaise(ExcVal('ValueError', ('invalid literal for int() with this base',)), node)
         if isinstance(v, str):
             try:
                 return int(v)
@@ -506,6 +516,21 @@ def register(M):
         cs = c if isinstance(c, tuple) else (c,)
         return any(isinstance_abs(interp, v, x, node) for x in cs)
 
+    def _pure_builtin(name):
+        import builtins as _b
+        fn = getattr(_b, name)
+
+        def call(interp, args, kw, node):
+            if not all(isinstance(x, (int, str, bytes)) and not isinstance(x, bool) or isinstance(x, bool) for x in list(args) + list(kw.values())):
+                raise AnalysisError(f'{name}() of a value that is not a plain int / str not modelled', node)
+            try:
+                return fn(*args, **kw)
+            except (TypeError, ValueError, OverflowError) as e:
+                raise AbsRaise(ExcVal(type(e).__name__, (str(e),)), node)
+        return call
+    for _nm in ('ord', 'chr', 'hex', 'bin', 'oct', 'ascii'):
+        E['builtins.' + _nm] = _pure_builtin(_nm)
+
     @ext('builtins.issubclass')
     def _issubclass(interp, args, kw, node):
         c, ps = args
@@ -556,7 +581,10 @@ def register(M):
                 f = v.cls.lookup('__hash__')
                 return interp.call_function(f, [v], {}, node)
             except KeyError:
-                return id(v)
+                try:
+                    return hash(v)       # dataclass / NamedTuple field hashing, identity otherwise (Instance.__hash__)
+                except TypeError as e:
+                    raise AbsRaise(ExcVal('TypeError', (str(e),)), node)
         try:
             return hash(v)
         except TypeError:
@@ -748,10 +776,6 @@ def register(M):
     def _field(interp, args, kw, node):
         return FieldSpec(default=kw.get('default'), factory=kw.get('default_factory'))
 
-    @ext('functools.cached_property')
-    def _cached_property(interp, args, kw, node):
-        raise AnalysisError('functools.cached_property not modelled', node)
-
     @ext('functools.total_ordering')
     def _total_ordering(interp, args, kw, node):
         raise AnalysisError('functools.total_ordering not modelled', node)
@@ -812,6 +836,8 @@ def register(M):
             wrapper.attrs['__name__'] = wrapped.attrs.get('__name__', wrapped.name)
             wrapper.attrs['__module__'] = wrapped.attrs.get('__module__', wrapped.module.name)
             wrapper.attrs['__qualname__'] = wrapped.attrs.get('__qualname__', wrapped.qualname)
+            import ast as _ast
+            wrapper.attrs['__doc__'] = wrapped.attrs.get('__doc__', _ast.get_docstring(wrapped.node) if isinstance(getattr(wrapped.node, 'body', None), list) else None)
         wrapper.attrs['__wrapped__'] = wrapped
         return wrapper
     E['functools.update_wrapper'] = lambda it, a, k, n: _update_wrapper(a[0], a[1], n)
